@@ -22,8 +22,8 @@ CHECKS["C12"] = ("fault_enumeration",
    "DESIGN.md §3 C12", "E5 ops + E6 loomjob")
 CHECKS["C01"] = ("model_checking",
    "explicit-state product search of the real tokenizer x reference tokenizer (R-tok) over a lexeme alphabet, plus exhaustive bounded continuations and SIMD window sweep",
-   "Job 1: breadth-first search where a state is the lexeme history; each transition feeds history+lexeme chunk-per-lexeme to the real Tokenizer and compares the delivered tokens with R-tok (independent transliteration of the WHATWG tokenizer) under two closers (EOF; a universal closer that flushes every token buffer); states are merged by (abstract hook dump of the implementation, R-tok control state). Quick: 3 start configurations, time-capped (depth ~16, 5e5 states); thorough: all 48 start-state x last-start-tag x CDATA configurations run to a closed frontier (3.5e5 states, 1.9e7 transitions each). Job 2: from the shortest witness of every control state all lexeme strings of length <=2 (3 in thorough) in one chunk. Job 3: data-state strings of 15..34 (50) characters with up to two special items at every pair of positions (SIMD stride/mask/tail).",
-   "Alphabet: 53 lexemes, one per character class any spec state distinguishes; other characters assumed to behave like their class. Buffer abstraction argued in DESIGN.md C01. R-tok and python's html.entities table are the trusted base. Parse errors not compared. Quick tier is capped (exhaustive=false), thorough closes.",
+   "Job 1: breadth-first search where a state is the lexeme history; each transition feeds history+lexeme chunk-per-lexeme to the real Tokenizer and compares the delivered tokens with R-tok (independent transliteration of the WHATWG tokenizer) under two closers (EOF; a universal closer that flushes every token buffer); states are merged by (abstract hook dump of the implementation, R-tok control state). The bound of job 1 is a count of product states, not a clock, so the work is the same on every machine. Quick: the first 64 000 states in BFS order of each of 3 start configurations (every state at depth < 13-16 expanded with every lexeme, 7.6e6 transitions); thorough: those 3 principal configurations {Data; RCDATA after t; script data after script} run to a closed frontier (2.2e5-3.7e5 states, 1.3e7-2.2e7 transitions each, depth 29-36) and the other 45 start-state x last-start-tag x CDATA configurations to 128 000 states each. Job 2: from the shortest witness of every control state all lexeme strings of length <=2 (3 in thorough) in one chunk. Job 3: data-state strings of 15..34 (50) characters with up to two special items at every pair of positions (SIMD stride/mask/tail).",
+   "Alphabet: 59 lexemes, one per character class any spec state distinguishes; other characters assumed to behave like their class. Buffer abstraction argued in DESIGN.md C01. R-tok and python's html.entities table are the trusted base. Parse errors not compared. Quick tier is capped by max_states (exhaustive=false); thorough closes the 3 principal configurations and caps the other 45 (so it also reports exhaustive=false, with closed=true per closed configuration).",
    "DESIGN.md §3 C01", "E1 tok")
 CHECKS["C09"] = ("model_checking",
    "same product search as C01 with the line-number oracle (R-tok records characters consumed at each emission)",
